@@ -155,6 +155,9 @@ func CheckMetafile(rc *RunCtx, rec *BuildRec, label string) *Violation {
 	// every configured entry point that is a module of the model appears as an input
 	if rec.Opts.Bundle {
 		for _, e := range rec.Opts.EntryPoints {
+			if _, exists := rec.Before[absOf(root, e)]; !exists {
+				continue // resolved to something else (e.g. x.js -> x.ts) or not at all
+			}
 			if _, ok := mf.Inputs[path.Clean(e)]; !ok && !strings.Contains(e, "*") {
 				return viol("entry-missing", "", "entry point %q is not listed as an input (inputs: %v)", e, keysOfIn(mf.Inputs))
 			}
